@@ -125,6 +125,11 @@ func (r *validationResponseHandler) HandleValidationResponse(
 		noStore := ctx.CCReq.NoStore() || ParseCCResponseDirectives(resp.Header).NoStore()
 		switch f, ok := r.rs.(ResponseFreshener); {
 		case !ok || ctx.Stored.ID == "" || noStore:
+		case !r.ce.CanStoreResponse(ctx.Stored.Data, ctx.CCReq, ParseCCResponseDirectives(ctx.Stored.Data.Header)):
+			// RFC 9111 §3: the 304 turned the stored response into one that
+			// could not have been stored had it arrived like that (e.g. it adds
+			// must-understand to a status that is not understood, or removes the
+			// only explicit freshness): it is used for this request, not written.
 		case strings.Join(ctx.Stored.Data.Header.Values("Vary"), ", ") != storedVary:
 			// The 304 changed the Vary field: the reference in the index, and the
 			// identifier derived from the nominated values, no longer describe
